@@ -779,6 +779,10 @@ func reachesSuccessWithoutPass(st *ssa.Store, vc *ssa.Call) bool {
 				if isErrorType(last.Type()) && !isNilConst(last) {
 					return false
 				}
+				// `(value, ok bool)`: a false ok is the failure return
+				if b, isC := constBool(last); isC && !b && len(x.Results) > 1 {
+					return false
+				}
 				return true
 			case *ssa.If:
 				dirs := condTruthOf(x.Cond, vc)
